@@ -268,7 +268,7 @@ Print Assumptions cassandra_parser_no_UB.
 (* --- C19: MCTS / POMCP return an action index in range and keep A action nodes --------------- *)
 Theorem mcts_action_in_range : forall A term disc rl iters g op tr g' a tr' sts,
   0 < A -> C19.Spec.trace_ok A tr -> C19.Spec.counts_ok g /\ C19.Spec.mean_ok g /\ C19.Spec.shape_ok A g ->
-  C19.Model.mcts_op A term disc rl iters g op tr = (g', a, tr', sts) ->
+  C19.Model.mcts_op (fun _ => A) term disc rl iters g op tr = (g', a, tr', sts) ->
   a < A /\ length (C19.Model.acts g') = A.
 Proof. exact C19.ProofsTop.mcts_action_lemma. Qed.
 Print Assumptions mcts_action_in_range.
